@@ -47,15 +47,48 @@ theorem stepExact_of_contract (ι : ρ →+* 𝕜) (hι : ∀ x : ρ, (RealLike.
   refine ⟨h.shape, ?_⟩
   intro i hi j hj
   rw [rule_tol0 k.dnorm k.dargsort _ h.norm h.sort]
-  rw [sum_range_getD _ (fun x => (k.dsvd M).1.f i x * RealLike.ofReal ((k.dsvd M).2.1.getD x 0) * (k.dsvd M).2.2.f x j),
-    sum_filter_range, ← h.product i hi j hj]
-  apply sum_congr rfl
-  intro p _
-  simp only [hι]
-  by_cases hz : (k.dsvd M).2.1.getD p 0 = 0
-  · simp only [hz, ne_eq, not_true_eq_false, decide_false, map_zero, mul_zero, zero_mul]
-    rfl
-  · simp only [hz, ne_eq, not_false_eq_true, decide_true, if_true]
+  by_cases hkeep : (((List.range (k.dsvd M).2.1.length).filter fun i => decide ((k.dsvd M).2.1.getD i 0 ≠ 0)).isEmpty
+      && !(k.dsvd M).2.1.isEmpty) = true
+  · -- every singular value vanishes: the dummy column contributes `0`, and `M = U · diag(0) · V = 0`
+    rw [Bool.and_eq_true, List.isEmpty_iff, List.filter_eq_nil_iff] at hkeep
+    have hz : ∀ p < (k.dsvd M).2.1.length, (k.dsvd M).2.1.getD p 0 = 0 := by
+      intro p hp
+      have := hkeep.1 p (List.mem_range.2 hp)
+      simpa using this
+    have hne : 0 < (k.dsvd M).2.1.length := by
+      have : (k.dsvd M).2.1 ≠ [] := by
+        intro h0
+        have := hkeep.2
+        rw [h0] at this
+        simp at this
+      exact List.length_pos_iff.2 this
+    have hk1 : fvKeep ((List.range (k.dsvd M).2.1.length).filter fun i => decide ((k.dsvd M).2.1.getD i 0 ≠ 0))
+        (k.dsvd M).2.1 = [0] := by
+      unfold fvKeep
+      rw [if_pos]
+      rw [Bool.and_eq_true, List.isEmpty_iff, List.filter_eq_nil_iff]
+      exact hkeep
+    rw [hk1, ← h.product i hi j hj]
+    simp only [List.length_cons, List.length_nil, Nat.zero_add, sum_range_one, List.getD_cons_zero]
+    rw [hz 0 hne, hι, map_zero, mul_zero, zero_mul]
+    symm
+    apply sum_eq_zero
+    intro p hp
+    rw [hz p (mem_range.1 hp), map_zero, mul_zero, zero_mul]
+  · have hk1 : fvKeep ((List.range (k.dsvd M).2.1.length).filter fun i => decide ((k.dsvd M).2.1.getD i 0 ≠ 0))
+        (k.dsvd M).2.1 = (List.range (k.dsvd M).2.1.length).filter fun i => decide ((k.dsvd M).2.1.getD i 0 ≠ 0) := by
+      unfold fvKeep
+      rw [if_neg hkeep]
+    rw [hk1]
+    rw [sum_range_getD _ (fun x => (k.dsvd M).1.f i x * RealLike.ofReal ((k.dsvd M).2.1.getD x 0) * (k.dsvd M).2.2.f x j),
+      sum_filter_range, ← h.product i hi j hj]
+    apply sum_congr rfl
+    intro p _
+    simp only [hι]
+    by_cases hz : (k.dsvd M).2.1.getD p 0 = 0
+    · simp only [hz, ne_eq, not_true_eq_false, decide_false, map_zero, mul_zero, zero_mul]
+      rfl
+    · simp only [hz, ne_eq, not_false_eq_true, decide_true, if_true]
 
 /-- zero-tolerance `from_vector` reproduces the vector under the kernel contracts at the matrices of the run -/
 theorem fromVector_tol0 (ι : ρ →+* 𝕜) (hι : ∀ x : ρ, (RealLike.ofReal x : 𝕜) = ι x)
